@@ -36,7 +36,7 @@ func (fr *Frame) evalGoal(st *State, e *Expr, extra map[string]Val) (v Val, err 
 }
 
 func (fr *Frame) evalMode(st *State, e *Expr, extra map[string]Val, mode int) (v Val, err error) {
-	ev := &evaluator{fr: fr, r: fr.r, st: st, old: fr.entry, extra: extra, bound: map[string]Val{}, mode: mode, pol: 1}
+	ev := &evaluator{fr: fr, r: fr.r, st: st, old: fr.entry, extra: extra, bound: map[string]Val{}, mode: mode, pol: 1, scope: fr.scope}
 	if fr.fn != nil {
 		ev.pkg = fr.fn.Pkg
 		if ev.pkg == nil && fr.fn.Parent() != nil {
@@ -207,16 +207,35 @@ func (ev *evaluator) ident(name string) Val {
 	if v, ok := ev.extra[name]; ok {
 		return v
 	}
+	if i := strings.Index(name, "#"); i > 0 {
+		var ord int
+		fmt.Sscan(name[i+1:], &ord)
+		for h, o := range ev.fr.loopOrd {
+			if o != ord {
+				continue
+			}
+			for _, phi := range phisOf(h) {
+				if phi.Comment == name[:i] {
+					if v, ok := ev.fr.vals[phi]; ok {
+						return v
+					}
+				}
+			}
+		}
+		return ev.fail("no loop variable %s", name)
+	}
 	for f := ev.fr; f != nil; f = f.parent {
 		if v, ok := f.names[name]; ok {
 			return v
 		}
 		// loop variables by source name (phi comment), preferring the scope block
 		if ev.scope != nil && f == ev.fr {
-			for _, phi := range phisOf(ev.scope) {
-				if phi.Comment == name {
-					if v, ok := f.vals[phi]; ok {
-						return v
+			for _, h := range f.loopChain[ev.scope] {
+				for _, phi := range phisOf(h) {
+					if phi.Comment == name {
+						if v, ok := f.vals[phi]; ok {
+							return v
+						}
 					}
 				}
 			}
@@ -594,6 +613,25 @@ func (ev *evaluator) call(e *Expr) Val {
 		return ev.eval(e.Args[i])
 	}
 	switch name {
+	case "at_loop":
+		// value of the expression when the enclosing loop was entered
+		var snap *State
+		if ev.scope != nil {
+			for _, h := range ev.fr.loopChain[ev.scope] {
+				if s, ok := ev.fr.loopEntry[h]; ok {
+					snap = s
+					break
+				}
+			}
+		}
+		if snap == nil {
+			ev.fail("at_loop used outside a loop")
+		}
+		saved := ev.st
+		ev.st = snap
+		v := arg(0)
+		ev.st = saved
+		return v
 	case "old":
 		saved := ev.st
 		if ev.old != nil {
@@ -700,7 +738,12 @@ func (ev *evaluator) call(e *Expr) Val {
 		}
 		et := x.T.Underlying().(*types.Slice).Elem()
 		key := r.elemKey(et)
-		return Val{K: KStr, T: types.Typ[types.String], S: fmt.Sprintf("(bytes2str (select %s (s_base %s)) (s_off %s) (s_len %s))", r.get(ev.st, key), x.S, x.S, x.S)}
+		t := fmt.Sprintf("(bytes2str (select %s (s_base %s)) (s_off %s) (s_len %s))", r.get(ev.st, key), x.S, x.S, x.S)
+		if r.inQuant == 0 && !r.once["b2s|"+t] {
+			r.once["b2s|"+t] = true
+			r.facts.Assert(fmt.Sprintf("(=> (>= (s_len %s) 0) (= (slen %s) (s_len %s)))", x.S, t, x.S))
+		}
+		return Val{K: KStr, T: types.Typ[types.String], S: t}
 	case "domain":
 		x := arg(0)
 		if x.K == KRef && x.T != nil {
@@ -729,6 +772,15 @@ func (ev *evaluator) call(e *Expr) Val {
 	case "addr":
 		// addr(x.f): the place of a field, as a pointer value
 		return ev.place(e.Args[0])
+	case "toint":
+		x := arg(0)
+		return Val{K: KInt, T: types.Typ[types.Int], S: wrap(types.Typ[types.Int], x.S)}
+	case "emptyset":
+		srt := "Int"
+		if len(e.Args) == 1 && e.Args[0].Op == "str" {
+			srt = specSort(e.Args[0].Str)
+		}
+		return Val{K: KSpec, Sort: "(Array " + srt + " Bool)", S: "((as const (Array " + srt + " Bool)) false)"}
 	case "lit_contains":
 		x := arg(0)
 		if e.Args[1].Op != "str" {
@@ -748,6 +800,14 @@ func (ev *evaluator) call(e *Expr) Val {
 			ev.fail("pkg needs a string")
 		}
 		return Val{K: KSpec, Sort: "pkg", S: e.Args[0].Str}
+	}
+	if strings.HasPrefix(name, "ridx") && len(e.Args) == 1 {
+		var ord int
+		fmt.Sscan(name[4:], &ord)
+		if f, ok := ev.fr.rangeIdxFn[ord]; ok {
+			return intVal(sApp(f, ev.term(arg(0))))
+		}
+		ev.fail("no range iteration #%d", ord)
 	}
 	if pd, ok := r.eng.cs.Preds[name]; ok {
 		if len(pd.Params) != len(e.Args) {
